@@ -9,11 +9,12 @@ set_option linter.unusedSimpArgs false
 /-! ### what a spec-side pass does to `rest` and `ok` -/
 
 theorem peek_rest (a : LSt) : a.peek.2.rest = a.rest := by rw [peek_snd]; simp
-theorem peek_ok (a : LSt) : a.peek.2.ok = a.ok := by rw [peek_snd]; simp
+theorem peek_ok_le (a : LSt) (h : a.peek.2.ok = true) : a.ok = true := by
+  rw [peek_snd] at h; simp at h; exact h.1
 theorem peekTwo_rest (a : LSt) : a.peekTwo.2.2.rest = a.rest := by
-  rw [peekTwo_snd, peekTwoEff0_rest]; rfl
+  rw [peekTwo_snd]; simp
 theorem peekTwo_ok_le (a : LSt) (h : a.peekTwo.2.2.ok = true) : a.ok = true := by
-  rw [peekTwo_snd, peekTwoEff0_ok] at h
+  rw [peekTwo_snd] at h
   simp at h
   exact h.1
 
@@ -34,18 +35,18 @@ theorem afterEsc_rest (b : Byte) (bq : Nat) (a : LSt) : (LSt.runeAfterEsc b bq a
 
 theorem afterEsc_ok_le (b : Byte) (bq : Nat) (a : LSt) (h : (LSt.runeAfterEsc b bq a).st.ok = true) :
     a.ok = true := by
-  rw [runeAfterEsc_ok] at h; simp at h; exact h.1
+  rw [runeAfterEsc_ok] at h; exact h
 
 theorem backslash_rest_le (b : Byte) (bq : Nat) (a : LSt) :
     (LSt.runeBackslash b bq a).st.rest.length ≤ a.rest.length := by
   unfold LSt.runeBackslash
+  have h1 := peek_rest a
+  rcases hpk : a.peek with ⟨pk, a1⟩
+  rw [hpk] at h1
+  simp only at h1 ⊢
   split
-  · rw [afterEsc_rest]; exact Nat.le_refl _
-  · have h1 := peek_rest a
-    rcases hpk : a.peek with ⟨pk, a1⟩
-    rw [hpk] at h1
-    simp only at h1 ⊢
-    split
+  · rw [afterEsc_rest, h1]; exact Nat.le_refl _
+  · split
     · simp only [LSt.Step.st]
       have := consume_rest_length a1
       rw [h1] at this
@@ -65,21 +66,23 @@ theorem backslash_rest_le (b : Byte) (bq : Nat) (a : LSt) :
 theorem backslash_ok_le (b : Byte) (bq : Nat) (a : LSt) (h : (LSt.runeBackslash b bq a).st.ok = true) :
     a.ok = true := by
   unfold LSt.runeBackslash at h
+  have h1 := peek_ok_le a
+  rcases hpk : a.peek with ⟨pk, a1⟩
+  rw [hpk] at h1 h
+  simp only at h1 h
+  apply h1
   split at h
   · exact afterEsc_ok_le _ _ _ h
-  · have h1 := peek_ok a
-    rcases hpk : a.peek with ⟨pk, a1⟩
-    rw [hpk] at h1 h
-    simp only at h1 h
-    split at h
-    · simp [LSt.Step.st] at h; rw [← h1]; exact h
+  · split at h
+    · simpa [LSt.Step.st] using h
     · have h2 := peekTwo_ok_le a1
       rcases hpk2 : a1.peekTwo with ⟨p1, p2, a2⟩
       rw [hpk2] at h2 h
       simp only at h2 h
+      apply h2
       split at h
-      · simp [LSt.Step.st, LSt.consumeN] at h; rw [← h1]; exact h2 h
-      · rw [← h1]; exact h2 (afterEsc_ok_le _ _ _ h)
+      · simpa [LSt.Step.st, LSt.consumeN] using h
+      · exact afterEsc_ok_le _ _ _ h
 
 theorem consume_rest_cons {a : LSt} {c t} (h : a.rest = c :: t) : a.consume.rest = t := by
   unfold LSt.consume; simp [h]
@@ -113,11 +116,11 @@ theorem ascii_ok_le (b : Byte) (bq : Nat) (a : LSt) (h : (LSt.runeAscii b bq a).
   split at h
   · simpa [LSt.Step.st] using h
   · split at h
-    · have h1 := peek_ok a'
+    · have h1 := peek_ok_le a'
       rcases hpk : a'.peek with ⟨pk, a1⟩
       rw [hpk] at h1 h
       simp only at h1 h
-      rw [← h1]
+      apply h1
       split at h <;> simpa [LSt.Step.st] using h
     · split at h
       · exact backslash_ok_le _ _ _ h
@@ -131,8 +134,7 @@ theorem ascii_ok_le (b : Byte) (bq : Nat) (a : LSt) (h : (LSt.runeAscii b bq a).
   induction n with
   | zero => intro a; rfl
   | succ n ih => intro a; simp [LSt.consumeN, ih]
-@[simp] theorem decodeSpec_ok (a : LSt) : (decodeSpec a).ok = a.ok := by
-  unfold decodeSpec; split <;> simp
+@[simp] theorem decodeSpec_ok (a : LSt) : (decodeSpec a).ok = a.ok := rfl
 
 theorem runeDecode_ok (a : LSt) : (LSt.runeDecode a).ok = a.ok := by
   rw [runeDecode_eq]
@@ -141,12 +143,11 @@ theorem runeDecode_ok (a : LSt) : (LSt.runeDecode a).ok = a.ok := by
   split <;> simp
 
 theorem runeAtEOF_ok (a : LSt) : (LSt.runeAtEOF a).ok = a.ok := by
-  rw [runeAtEOF_eq]
-  unfold atEOFTail
-  simp only
-  split <;> simp
+  unfold LSt.runeAtEOF
+  split <;> rfl
 
-theorem step_ok_le (bq : Nat) (a : LSt) (h : (LSt.runeStep bq a).st.ok = true) : a.ok = true := by
+theorem step_ok_forget (bq : Nat) (a : LSt) (h : (LSt.runeStep bq a).st.ok = true) :
+    a.forget.ok = true := by
   unfold LSt.runeStep at h
   simp only at h
   split at h
@@ -154,8 +155,11 @@ theorem step_ok_le (bq : Nat) (a : LSt) (h : (LSt.runeStep bq a).st.ok = true) :
   · unfold LSt.runeBody at h
     simp only at h
     split at h
-    · simpa using ascii_ok_le _ _ _ h
+    · exact ascii_ok_le _ _ { a.forget with look := max a.forget.look 1 } h
     · simpa [LSt.Step.st, runeDecode_ok] using h
+
+theorem step_ok_le (bq : Nat) (a : LSt) (h : (LSt.runeStep bq a).st.ok = true) : a.ok = true :=
+  forget_ok_le (step_ok_forget bq a h)
 
 theorem step_retry_lt {bq bq' : Nat} {a a' : LSt} (h : LSt.runeStep bq a = .retry bq' a') :
     a'.rest.length < a.rest.length := by
@@ -204,7 +208,7 @@ theorem runeLoop_refines (f1 : Nat) : ∀ (f2 bq : Nat) {s : St} {a : LSt}, R s 
         cases hs : LSt.runeStep bq a with
         | done a' => rw [hs] at hok; exact hok
         | retry bq' a' => rw [hs] at hok; exact loop_ok_le m bq' a' hok
-      obtain ⟨st, hst, hrel⟩ := runeStep_refines bq h hoks
+      obtain ⟨st, hst, hrel⟩ := runeStep_refines bq h (forget_ok_halted (step_ok_forget bq a hoks))
       simp only [hst, bind_ok]
       cases hs : LSt.runeStep bq a with
       | done a' =>
